@@ -310,6 +310,22 @@ fn run(ctx: &mut Ctx) {
             }
         }
     }
+    // the same setter called two or three times with contents that differ in the flags only / in the values only
+    ctx.bound("setter_repeated", "every slot with fields: all ordered pairs and triples of calls of that setter over 6 look-alike contents (two flags x three value sets; information request: the empty list, [0] and [8] with both flags): the last call wins, byte for byte");
+    for slot in [0usize, 1, 2, 4, 7, 8, 9] {
+        let codes: Vec<usize> = if slot == 0 { vec![0, 1, 512, 513, 514, 515] } else { vec![0, 1, 2, 3, 4, 5] };
+        for len in 2..=3usize {
+            for c in 0..codes.len().pow(len as u32) {
+                let prog: Vec<(usize, usize)> = (0..len).map(|i| (slot, LOOK_BASE + codes[(c / codes.len().pow(i as u32)) % codes.len()])).collect();
+                let describe = || J::obj().set("part", "setter_repeated").set("slot", SLOT_NAMES[slot]).set("codes", J::Arr(prog.iter().map(|(_, c)| J::from(c - LOOK_BASE)).collect()));
+                ctx.leaf(describe, |ctx| {
+                    ctx.state_direct();
+                    ctx.nontrivial();
+                    run_program(ctx, 0, &prog, &|| format!("repeated setter {} codes {:?}", SLOT_NAMES[slot], prog.iter().map(|p| p.1 - LOOK_BASE).collect::<Vec<_>>()));
+                });
+            }
+        }
+    }
 }
 
 fn run_program_warm() {
